@@ -32,3 +32,23 @@ META = {
         technique="differential decoding against a reference decoder + re-encode relation (rapid), exhaustive for lengths <= 2/3"),
 }
 NOT_APPLICABLE = {}
+CHECKS["C10"] = dict(parts=[part("half-open-reaped", "gw", "TestC10", 2000, 100_000)])
+CHECKS["C07"] = dict(parts=[part("no-admission-without-broker", "gw", "TestC07", 4000, 300_000)])
+CHECKS["C08"] = dict(parts=[part("auth-enforced", "gw", "TestC08", 4000, 300_000)])
+CHECKS["C09"] = dict(parts=[part("will-protocol", "gw", "TestC09", 4000, 300_000)])
+_GW_NOTE = "Real gateway session (unmodified handler1.run through the verif-tagged hook) on in-memory links inside a testing/synctest bubble (virtual time); the scripted client and broker speak through the reference codecs snref/mqttref, which are trusted. Built with go1.26.8 (needed for synctest)."
+META.update({
+    "C07": dict(
+        text="Exploration: thousands of generated pre-admission packet sequences (every packet type, will/auth/sleep variants, auth on/off, broker accept/refuse/silent) are run against the real session; a monitor over the complete trace checks that CONNACK(accepted) is preceded by a broker acceptance in this session, that nothing but CONNECT/exempt QoS -1 PUBLISH/DISCONNECT reaches the broker before admission, and that an illegal packet ends the session within one poll interval with nothing forwarded afterwards.",
+        note=_GW_NOTE, technique="stateful PBT (generated packet sequences) with a trace monitor as oracle; virtual time"),
+    "C08": dict(
+        text="Exploration: generated connect exchanges with AUTH/WILLTOPIC/WILLMSG in any order and multiplicity and hostile AUTH payloads, auth on/off, all gateway-credential configurations; the monitor compares the credentials of every MQTT CONNECT on the broker stream with the AUTH of the current exchange (auth on) or with the configured credentials (auth off) and checks the unknown-method refusal.",
+        note=_GW_NOTE, technique="stateful PBT with a credential monitor over the broker byte stream (independent MQTT parser)"),
+    "C09": dict(
+        text="Exploration: generated connect exchanges (will topics/messages/flags, keep-alive values incl. 0, broker codes 0-5 and silence, duplicated and out-of-order WILL*/AUTH packets); the monitor checks the order WILLTOPICREQ -> WILLMSGREQ -> MQTT CONNECT, the will carried by the CONNECT, at most one CONNECT per exchange and the CONNACK mapping.",
+        note=_GW_NOTE, technique="stateful PBT with a protocol-order monitor (reference model of the documented exchange)"),
+    "C10": dict(
+        text="Exploration: every prefix of every connect-exchange variant (enumerated exhaustively, with and without a superseding CONNECT) plus generated gaps around the 100 ms poll interval; the oracle is a bound on the virtual clock: the session has returned and closed the broker connection by last CONNECT + 5 s + 100 ms.",
+        note=_GW_NOTE + " Timing is judged on the bubble's virtual clock with one poll interval of slack (goroutines runnable at the same instant are ordered by the Go scheduler).",
+        technique="PBT over exchange prefixes on a virtual clock (testing/synctest), exhaustive over (variant, cut) pairs"),
+})
